@@ -87,7 +87,25 @@ def run(tier, seed, open_findings):
             if viol or outcome.startswith('OTHER'):
                 fails.append(dict(case=dict(mode=mode, mechanism='document-api-hint', spelling=sp, location=loc.replace(root, '<root>')),
                                   observed=dict(outcome=outcome, fetched=[(k, p.replace(root, '<root>')) for k, p in viol]), required='no fetch outside the allowed class; only library exceptions'))
-        return [result('C12.confinement_catalogue', f'5 allow modes x 5 mechanisms (include, import, redefine, instance hint on a built schema, instance hint through the package-level API) x {len(SPELL)} location spellings, audit hook on open + stub http opener', n, fails, exhaustive=True,
+        # a resource / document object re-used for another source: parse() rebuilds the object with its own arguments, the allow mode included
+        inst = os.path.join(base, 'inst.xml'); open(inst, 'w').write('<r/>')
+        plain = xmlschema.XMLSchema10(f'<xs:schema {XS}><xs:element name="r"/></xs:schema>')
+        targets = {'inside': inst, 'inside-url': 'file://' + inst, 'evil-abs': os.path.join(evil, 'inst.xml'), 'remote': 'http://example.invalid/inst.xml'}
+        open(os.path.join(evil, 'inst.xml'), 'w').write('<r/>')
+        for mode, kind, (sp, loc) in itertools.product(['all', 'none', 'local', 'remote', 'sandbox'], ['XMLResource.parse', 'XmlDocument.parse'], targets.items()):
+            n += 1; _events.clear(); outcome = 'ok'
+            try:
+                opener = urllib.request.build_opener(Stub)
+                obj = xmlschema.XMLResource('<r/>', allow=mode, base_url=base, opener=opener) if kind == 'XMLResource.parse' else \
+                    xmlschema.XmlDocument('<r/>', schema=plain, allow=mode, base_url=base, opener=opener)
+                obj.parse(loc)
+            except XMLSchemaException as e: outcome = type(e).__name__
+            except Exception as e: outcome = 'OTHER:' + type(e).__name__ + ': ' + str(e)[:80]
+            viol = [(k, p) for k, p in _events if not allowed(mode, 'open' if k == 'open' else 'remote', p, base)]
+            if viol or outcome.startswith('OTHER'):
+                fails.append(dict(case=dict(mode=mode, mechanism=kind, spelling=sp, location=loc.replace(root, '<root>')),
+                                  observed=dict(outcome=outcome, fetched=[(k, p.replace(root, '<root>')) for k, p in viol]), required='no fetch outside the allowed class; only library exceptions'))
+        return [result('C12.confinement_catalogue', f'5 allow modes x 5 mechanisms (include, import, redefine, instance hint on a built schema, instance hint through the package-level API) x {len(SPELL)} location spellings, plus parse() of a resource / document object created with the mode x 4 targets; audit hook on open + stub http opener', n, fails, exhaustive=True,
                        samples=[dict(mode='sandbox', mechanism='include', location='../sand_evil/inc.xsd')])]
     finally:
         _root[0] = None
